@@ -430,6 +430,22 @@ def run_C13(res):
             res.count("deterministic_runs_compared")
         else:
             res.count("time_limited_runs_state_only")
+    if res.tier == "thorough":
+        # long searches (several seconds) twice in fresh processes: anything driven by the wall clock inside a depth-limited search shows only here
+        from vlib import canon_transcript
+        vlib.cargo_build_bins()
+        for fen, d in (("r3k2r/p1ppqpb1/bn2pnp1/3PN3/1p2P3/2N2Q1p/PPPBBPPP/R3K2R w KQkq - 0 1", 11), ("rnbqkbnr/pppppppp/8/8/8/8/PPPPPPPP/RNBQKBNR w KQkq - 0 1", 10)):
+            sc = ["isready", "position fen " + fen, f"go depth {d}", "quit"]
+            runs = [vlib.run_engine(sc, "release", timeout=300) for _ in range(2)]
+            res.evaluations += 2
+            res.count("long_searches_seconds", int(runs[0][4] + runs[1][4]))
+            t = [canon_transcript(r[1]) for r in runs]
+            if runs[0][0] != 0 or runs[1][0] != 0 or runs[0][3] or runs[1][3]:
+                res.fail("a long depth-limited search crashed or did not finish within 300 s", script=sc)
+            elif t[0] != t[1]:
+                k = next((i for i, (a, b) in enumerate(zip(t[0], t[1])) if a != b), min(len(t[0]), len(t[1])))
+                res.fail("repeating the same depth-limited search in a fresh process gave a different info stream (time and nps aside)", script=sc,
+                         first=t[0][k] if k < len(t[0]) else "<end>", second=t[1][k] if k < len(t[1]) else "<end>", seconds=[round(runs[0][4], 1), round(runs[1][4], 1)])
 
 
 def run_C14(res):
